@@ -215,3 +215,39 @@ contract('C20/SetGenerationMonitor', ['C20', 'C04'], AS + '::AbstractSolver.SetG
          samples=200)(lambda h: _install(h, 'SetGenerationMonitor', '_stepmon'))
 contract('C20/SetEvaluationMonitor', ['C20', 'C04'], AS + '::AbstractSolver.SetEvaluationMonitor', loops=_prepend_loops(),
          samples=200)(lambda h: _install(h, 'SetEvaluationMonitor', '_evalmon'))
+
+
+# ---------------------------------------------------------------------------- C06 / C20: what pickling a logging monitor keeps
+def _pickle_state(h, cls, nargs):
+    """__reduce__ / __setstate__ of the logging monitors (the protocol pickle, dill and copy.deepcopy drive -- their
+    driving it is an assumed contract of the standard library): the reconstructed monitor gets the SAME raw records
+    (_x, _y as stored, i.e. k*cost -- not divided by k again), ids, info, k and label, is re-opened on the same file
+    WITHOUT truncating it (new=False), and nothing else is put into its state"""
+    if not h.is_sym():
+        h.unsupported('symbolic only')
+    k = _k(h)
+    m, n, xs, ys, ids = _scalar_monitor(h, 'm', k)
+    fields = dict(_yinterval=h.int('interval'), _filename='log.txt', _all=h.bool('all'), _vyinterval=h.int('yint'), _vxinterval=h.int('xint'))
+    target = h.obj(cls, _x=xs, _y=ys, _id=ids, _info=h.field(m, '_info'), k=k, _npts=None, label='Chi', **fields)
+    r = h.call(h.getattr(target, '__reduce__'))
+    env = dict(r=r, m=target, xs=xs, ys=ys, ids=ids, n=n, k=k)
+    h.check('reconstructor-is-the-monitors-own-class', 'len(r) == 3 and r[0] is m.__class__', **env)
+    h.check('state-holds-the-raw-records', 'len(r[2]["_x"]) == n and len(r[2]["_y"]) == n and '
+            'forall(0, n, lambda i: r[2]["_x"][i] == xs[i] and r[2]["_y"][i] == ys[i] and r[2]["_id"][i] == ids[i])', **env)
+    h.check('state-holds-k-label-info',
+            '(r[2]["k"] is None if k is None else r[2]["k"] == k) and r[2]["label"] == "Chi" and same(r[2]["_info"], m._info)', **env)
+    h.check('reopened-on-the-same-file-without-truncating-it',
+            'len(r[1]) == %d and r[1][%d] == "log.txt" and r[1][%d] is False and r[1][0] == m._yinterval' % (nargs, nargs - 4, nargs - 3), **env)
+    fresh = h.obj(cls, _x=h.clist([]), _y=h.clist([]), _id=h.clist([]), _info=h.clist([]), k=None, _npts=None, label=None, **fields)
+    h.call(h.getattr(fresh, '__setstate__'), h.ev('r[2]', r=r))
+    h.check('setstate-installs-exactly-the-state',
+            'same(f._x, r[2]["_x"]) and same(f._y, r[2]["_y"]) and same(f._id, r[2]["_id"]) and same(f._info, r[2]["_info"]) and f.label == "Chi" '
+            'and (f.k is None if k is None else f.k == k) and f._filename == "log.txt"', f=fresh, **env)
+    h.check('visible-costs-of-the-restored-monitor-are-the-recorded-costs',
+            'len(f._y) == n and forall(0, n, lambda i: f._y[i] == ys[i])', f=fresh, **env)
+
+
+contract('C06/LoggingMonitor.__reduce__', ['C06', 'C20'], M + '::LoggingMonitor.__reduce__', native=False)(
+    lambda h: _pickle_state(h, M + '::LoggingMonitor', 5))
+contract('C06/VerboseLoggingMonitor.__reduce__', ['C06', 'C20'], M + '::VerboseLoggingMonitor.__reduce__', native=False)(
+    lambda h: _pickle_state(h, M + '::VerboseLoggingMonitor', 7))
